@@ -128,7 +128,32 @@ func c04(args []string) error {
 		case 1: // SelectSites
 			k := r.Intn(6)
 			sites := make([]int, k)
+			// a run of consecutive sites, shuffled or with a repeat: the list is NOT a window although its ends look like one
+			if L >= 3 && r.Intn(4) == 0 {
+				st := r.Intn(L - 2)
+				n := 3 + r.Intn(min(4, L-st-2))
+				run := make([]int, n)
+				for i := range run {
+					run[i] = st + i
+				}
+				switch r.Intn(3) {
+				case 0: // inner sites swapped, ends in place
+					if n >= 4 {
+						run[1], run[2] = run[2], run[1]
+					} else {
+						run[0], run[1] = run[1], run[0]
+					}
+				case 1: // a repeat inside: first + len - 1 == last
+					run[1] = run[0]
+				default:
+					r.Shuffle(n, func(a, b int) { run[a], run[b] = run[b], run[a] })
+				}
+				sites = run
+			}
 			for i := range sites {
+				if len(sites) != k {
+					break
+				}
 				if r.Intn(4) == 0 {
 					sites[i] = boundaryInt(r, L)
 				} else if L > 0 {
